@@ -143,6 +143,15 @@ func init() {
 			f := randomFilterSpec(rng, names, srcs, len(specs)%2 == 0)
 			if fr, err := g.Filter(f.opts()); err == nil && fr != g {
 				specs = append(specs, f)
+				// histories of selections: a degenerate variant of the same options (present-but-empty lists, included entries
+				// that are all excluded) is asked for right before and after
+				if len(specs)%3 == 0 {
+					for _, tw := range degenerateTwins(rng, f, names, srcs) {
+						if fr2, err := g.Filter(tw.opts()); err == nil && fr2 != g {
+							specs = append(specs, tw, f)
+						}
+					}
+				}
 			}
 		}
 		for _, src := range srcs {
@@ -191,7 +200,24 @@ func init() {
 			if err != nil {
 				continue
 			}
-			cn, on, ln := namesOfKind(fr)
+			// what the options select is what the documented rule says they select (not what the registry handed back says
+			// it holds): the filtered run is compared against that
+			var cn, on, ln []string
+			for _, l := range g.CertificateLints().Lints() {
+				if specSelected(f, l.Name, string(l.Source)) {
+					cn = append(cn, l.Name)
+				}
+			}
+			for _, l := range g.OcspResponseLints().Lints() {
+				if specSelected(f, l.Name, string(l.Source)) {
+					on = append(on, l.Name)
+				}
+			}
+			for _, l := range g.RevocationListLints().Lints() {
+				if specSelected(f, l.Name, string(l.Source)) {
+					ln = append(ln, l.Name)
+				}
+			}
 			isSingle := si >= nFilters
 			for i, cc := range certs {
 				if isSingle && i%12 != si%12 {
